@@ -1,6 +1,9 @@
 //go:build verif
 
-package c06
+// Package rxwindow checks the retention window of receive transactions with the real timers (shared by C06, C07, C08):
+// whatever was received under an (address, sequence number) - answered or not - is forgotten once the window has elapsed,
+// so a later request re-using the pair is executed and gets its own answer.
+package rxwindow
 
 import (
 	"fmt"
@@ -28,24 +31,25 @@ import (
 // generous: the heartbeat is repeated every 300 ms for 10 s before the key
 // counts as never released.
 
-type WEv struct {
+type Ev struct {
 	Kind string `json:"kind"` // hb assoc est estnofseid assocupd assocrel unknown
 	Peer int    `json:"peer"`
 	Seq  uint32 `json:"seq"`
 }
 
-type WCase struct {
+type Case struct {
 	RetransMs  int   `json:"retrans_ms"`
 	MaxRetrans uint8 `json:"max_retrans"`
-	Evs        []WEv `json:"evs"`
+	Evs        []Ev  `json:"evs"`
 }
 
-type wstats struct {
-	unanswered int
-	keys       int
+type Stats struct {
+	Unanswered int
+	Keys       int
 }
 
-func runWindow(c WCase) (v *vcore.Violation, stt wstats) {
+// Run plays the case on a fresh server.
+func Run(c Case) (v *vcore.Violation, stt Stats) {
 	d := stack.NewModelDriver()
 	st, err := stack.New(stack.Opts{Driver: d, Nodes: 2, Extra: 1, Retrans: time.Duration(c.RetransMs) * time.Millisecond, MaxRetrans: c.MaxRetrans})
 	if err != nil {
@@ -70,7 +74,10 @@ func runWindow(c WCase) (v *vcore.Violation, stt wstats) {
 	cp := uint64(0x500)
 	ts := ie.NewRecoveryTimeStamp(time.Unix(1700000000, 0))
 	for i, ev := range c.Evs {
-		node := nodeOf(ev.Peer)
+		node := ev.Peer
+		if node >= 100 {
+			node = 0
+		}
 		var o *stack.Obs
 		switch ev.Kind {
 		case "hb", "assoc":
@@ -98,7 +105,7 @@ func runWindow(c WCase) (v *vcore.Violation, stt wstats) {
 			return vcore.Violatef("stuck", "event %d (%s): no heartbeat answer", i, ev.Kind), stt
 		}
 		if len(o.Rx[ev.Peer]) == 0 {
-			stt.unanswered++
+			stt.Unanswered++
 		}
 		kk := k{ev.Peer, ev.Seq}
 		if o.SentSeq != 0 {
@@ -109,7 +116,7 @@ func runWindow(c WCase) (v *vcore.Violation, stt wstats) {
 			order = append(order, kk)
 		}
 	}
-	stt.keys = len(order)
+	stt.Keys = len(order)
 	// more than the window after the last request
 	time.Sleep(2*window + 30*time.Millisecond)
 	for _, kk := range order {
@@ -143,30 +150,21 @@ func runWindow(c WCase) (v *vcore.Violation, stt wstats) {
 	return nil, stt
 }
 
-func genWindow(t *rapid.T) WCase {
-	c := WCase{
+// Gen draws a window length and 1-8 requests after an association.
+func Gen(t *rapid.T) Case {
+	c := Case{
 		RetransMs:  rapid.SampledFrom([]int{20, 60}).Draw(t, "retrans_ms"),
 		MaxRetrans: uint8(rapid.IntRange(0, 2).Draw(t, "max_retrans")),
-		Evs:        []WEv{{"assoc", 0, 77}},
+		Evs:        []Ev{{"assoc", 0, 77}},
 	}
 	n := rapid.IntRange(1, 8).Draw(t, "n")
 	kinds := []string{"hb", "assoc", "est", "est", "estnofseid", "assocupd", "assocrel", "unknown"}
 	for i := 0; i < n; i++ {
-		c.Evs = append(c.Evs, WEv{
+		c.Evs = append(c.Evs, Ev{
 			Kind: rapid.SampledFrom(kinds).Draw(t, "kind"),
 			Peer: rapid.SampledFrom([]int{0, 1, 100}).Draw(t, "peer"),
 			Seq:  rapid.SampledFrom([]uint32{1, 2, 3, 0, 1<<24 - 1}).Draw(t, "seq"),
 		})
 	}
 	return c
-}
-
-func accountWindow(c WCase, s wstats) {
-	vcore.E.Eval()
-	vcore.E.Class("real_window")
-	if s.unanswered > 0 {
-		vcore.E.Class("real_window:with_unanswered_request")
-		vcore.E.NonTrivial(vcore.JSON(c))
-		vcore.E.Sample("real-window", c)
-	}
 }
